@@ -179,7 +179,7 @@ func c14oracle(e *c14env, returned bool, quiescent bool) {
 	}
 	if returned && teardownReq != 0 && shutdownAt == 0 && !hostErr {
 		// the lease closed and nothing pre-empted the manager
-		verif_Assert(teardownStart != 0 || deployFailed, "C14 a closed lease is torn down")
+		verif_Assert(teardownStart != 0, "C14 a closed lease is torn down")
 		verif_Assert(released, "C14 hostnames are released once the manager of a closed lease is done")
 	}
 	if quiescent && teardownReq == 0 && !deployFailed && !hostErr && lastDeployGroup != nil {
